@@ -1,21 +1,252 @@
 /-
-C07 — catalog integrity: no orphans, complete cascades, derived views agree.  (work in progress)
+C07 — catalog integrity: no orphans, complete cascades, derived views agree.
+
+Model: `CV.Store.CatX` (`XState`, `applyX`, `replayX`), the catalog layer built around the shared store
+model `CV.Store` (the local catalog and one catalog per peer are each a base `State`; the wrapper adds
+service kinds, coordinates, kind-service-names, virtual IPs, usage, config entries, the virtual-ips flag).
+
+Hypothesis of the reachability theorems: `XLog.wf` — the node names the commands hand to the catalog are
+NUL-free in their lower-cased spelling (`NF`). memdb builds the two-part primary keys of services and checks
+as `lower(node) ++ NUL ++ lower(id)`; with a NUL inside a node name two different (node, id) pairs share a
+key and the property is false for the code and for the model alike (the harness never generates such
+names; every other string is unconstrained).
 -/
-import CV.Proofs.StoreCatApply
+import CV.Proofs.StoreCatX
+import CV.Proofs.StoreCatVip
+import CV.Proofs.StoreCatCex
+import CV.Proofs.StoreCatRename
+import CV.Proofs.StoreCatUsage
 namespace CV.Props.C07
 open CV CV.Store
 
-/-- deregistering a node in one catalog of the shared store model: nothing that remains names the node -/
-theorem base_deregister_node_total {s s' : State} {idx : Nat} {name : String}
-    (hr : deleteNode s idx name = .ok s') (hfound : (nodeFind s name).isSome = true) :
-    (∀ v ∈ s'.svcs, lc v.node ≠ lc name) ∧ (∀ c ∈ s'.chks, lc c.node ≠ lc name) ∧
-    (∀ x ∈ s'.sessions, lc x.node ≠ lc name) ∧ nodeFind s' name = none := by
-  rcases deleteNode_spec hr with ⟨hnone, _⟩ | h
+/-! ### 1. no orphans, in every reachable state -/
+
+/-- The catalog invariant, spelled out: in EVERY catalog (the local one and each peer's imported one) every
+    service instance and every health check has its node, every service-scoped check has its service
+    instance, every session its node; every coordinate belongs to a registered local node. -/
+def CatInv (s : XState) : Prop :=
+  (∀ q, ∀ v ∈ (s.cat q).st.svcs, (nodeFind (s.cat q).st v.node).isSome = true) ∧
+  (∀ q, ∀ c ∈ (s.cat q).st.chks, (nodeFind (s.cat q).st c.node).isSome = true ∧
+      (c.svcId ≠ "" → (svcFind (s.cat q).st c.node c.svcId).isSome = true)) ∧
+  (∀ x ∈ s.loc.st.sessions, (nodeFind s.loc.st x.node).isSome = true) ∧
+  (∀ co ∈ s.coords, (nodeFind s.loc.st co.node).isSome = true)
+
+theorem catInv_of_catOK {s : XState} (h : CatOK s) : CatInv s := by
+  refine ⟨fun q => (h.orphan q).svc_node, fun q c hc => ⟨(h.orphan q).chk_node c hc, (h.orphan q).chk_svc c hc⟩, ?_, h.coords⟩
+  have := (h.orphan "").sess_node
+  rw [← loc_eq_cat] at this
+  exact this
+
+/-- **No orphans, for every history.** Whatever sequence of commands (register / deregister of nodes,
+    services of every kind and checks, local and imported; node renames by ID; coordinate batches; config
+    entry writes and deletes; the virtual-ips flag; sessions; KV verbs; transactions) is applied to the empty
+    store, the catalog invariant holds in the state reached. Unbounded: all logs, all raft indexes. -/
+theorem cat_inv_reachable (log : XLog) (hwf : XLog.wf log) : CatInv (replayX XState.empty log) :=
+  catInv_of_catOK (catOK_replayX log _ hwf CatOK.empty)
+
+/-- **One row per primary key**: in every reachable state, in every catalog, two node rows with the same
+    (lower-cased) name are the same row, and so are two service rows with the same (node, id) key — the lists are
+    strictly sorted by key, as memdb's primary index keeps them. -/
+theorem one_row_per_key_reachable (log : XLog) (hwf : XLog.wf log) (q : String) :
+    let c := (replayX XState.empty log).cat q
+    (∀ a ∈ c.st.nodes, ∀ b ∈ c.st.nodes, a.pk = b.pk → a = b) ∧ (∀ a ∈ c.st.svcs, ∀ b ∈ c.st.svcs, a.pk = b.pk → a = b) := by
+  have h := (catOK_replayX log _ hwf CatOK.empty).orphan q
+  exact ⟨fun a ha b hb hk => sortedBy_unique h.srt_nodes ha hb hk, fun a ha b hb hk => sortedBy_unique h.srt_svcs ha hb hk⟩
+
+/-- the invariant is inductive: one committed command preserves it from ANY state that satisfies it -/
+theorem cat_inv_step {s : XState} (idx : Nat) (c : XCmd) (hwf : c.wf) (hs : CatOK s) : CatOK (applyX s idx c).1 :=
+  catOK_applyX idx c hwf hs
+
+/-! ### 2. cascades -/
+
+/-- **Deregistering a node removes everything that names it**: after a successful node deregistration in
+    catalog `p` the node row is gone and no service, check or session of that catalog names the node; for the
+    local catalog no coordinate does either. (Also what the rename-by-ID inside `ensureNodeX` runs.) -/
+theorem deregister_node_total {s s' : XState} {idx : Nat} {p name : String}
+    (h : deregisterX s idx p name "" "" = .ok s') (hfound : (nodeFind (s.cat p).st name).isSome = true) :
+    nodeFind (s'.cat p).st name = none ∧
+    (∀ v ∈ (s'.cat p).st.svcs, lc v.node ≠ lc name) ∧
+    (∀ c ∈ (s'.cat p).st.chks, lc c.node ≠ lc name) ∧
+    (∀ x ∈ (s'.cat p).st.sessions, lc x.node ≠ lc name) ∧
+    (p = "" → ∀ co ∈ s'.coords, lc co.node ≠ lc name) := by
+  have h' : deleteNodeX s p idx name = .ok s' := by simpa [deregisterX] using h
+  obtain ⟨st', d, k, c⟩ := deleteNodeX_step h'
+  rw [k.st]
+  rcases deleteNode_spec d with ⟨hnone, _⟩ | hspec
   · rw [hnone] at hfound; simp at hfound
-  · refine ⟨fun v hv => (h.svcs v hv).2, ?_, fun x hx => (h.sess x hx).2, ?_⟩
+  · refine ⟨?_, fun v hv => (hspec.svcs v hv).2, ?_, fun x hx => (hspec.sess x hx).2, ?_⟩
+    · unfold nodeFind; rw [hspec.nodes]; exact tfind_terase_self _ _
     · intro c hc
-      obtain ⟨c0, _, hsame, hne⟩ := h.chks c hc
+      obtain ⟨c0, _, hsame, hne⟩ := hspec.chks c hc
       rw [hsame.1]; exact hne
-    · unfold nodeFind; rw [h.nodes]; exact tfind_terase_self _ _
+    · intro hp co hco
+      rw [if_pos ⟨hp, hfound⟩] at c
+      rw [c] at hco
+      simpa using (List.mem_filter.mp hco).2
+
+/-- **Deregistering a service instance removes its checks**: after a successful deregistration of instance
+    (`node`, `id`) of catalog `p` the row is gone and no check of that catalog is bound to it. -/
+theorem deregister_service_removes_checks {s s' : XState} {idx : Nat} {p node id : String}
+    (h : deleteServiceX s p idx node id = .ok s') (hfound : (svcFind (s.cat p).st node id).isSome = true) :
+    svcFind (s'.cat p).st node id = none ∧
+    ∀ c ∈ (s'.cat p).st.chks, ¬ (lc c.node = lc node ∧ lc c.svcId = lc id) := by
+  obtain ⟨st', d, k, _⟩ := deleteServiceX_step h
+  rw [k.st]
+  obtain ⟨_, a2, _, a4⟩ := deleteService_spec d
+  refine ⟨by unfold svcFind; rw [a2]; exact tfind_terase_self _ _, ?_⟩
+  intro c hc
+  obtain ⟨c0, _, hsame, hnm⟩ := a4 c hc
+  rw [hsame.1, hsame.2.2]
+  exact hnm hfound
+
+/-- **A check is inserted only under its parents**: a check whose node is absent is refused with
+    `missing-node`; one whose node exists but whose service instance does not with `missing-service`; whenever
+    the insertion succeeds both parents exist. (On a refusal the transaction is aborted: `apply` returns the
+    state unchanged.) -/
+theorem check_insert_requires_parents (s : State) (idx : Nat) (p : Bool) (hc : Chk) :
+    (nodeFind s hc.node = none → ensureCheck s idx p hc = .error .missingNode) ∧
+    ((nodeFind s hc.node).isSome = true → hc.svcId ≠ "" → svcFind s hc.node hc.svcId = none →
+        ensureCheck s idx p hc = .error .missingService) ∧
+    (∀ s', ensureCheck s idx p hc = .ok s' →
+        (nodeFind s hc.node).isSome = true ∧ (hc.svcId ≠ "" → (svcFind s hc.node hc.svcId).isSome = true)) := by
+  refine ⟨?_, ?_, ?_⟩
+  · intro hnone
+    unfold ensureCheck
+    generalize fuelFor s = n
+    have : checkPrep s idx p hc = .error .missingNode := by
+      unfold checkPrep
+      extract_lets ex hcA hcB
+      have hA : hcA.node = hc.node := by
+        unfold hcA
+        cases ex with
+        | some x => rfl
+        | none => dsimp only; split <;> rfl
+      have hB : hcB.node = hc.node := by
+        unfold hcB
+        split
+        · exact hA
+        · exact hA
+      rw [hB, hnone]
+    cases n <;> rw [ensureCheckF, this]
+  · intro hsome hne hnone
+    unfold ensureCheck
+    generalize fuelFor s = n
+    have : checkPrep s idx p hc = .error .missingService := by
+      unfold checkPrep
+      extract_lets ex hcA hcB
+      have hA : hcA.node = hc.node ∧ hcA.svcId = hc.svcId := by
+        unfold hcA
+        cases ex with
+        | some x => exact ⟨rfl, rfl⟩
+        | none => dsimp only; split <;> exact ⟨rfl, rfl⟩
+      have hB : hcB.node = hc.node ∧ hcB.svcId = hc.svcId := by
+        unfold hcB
+        split
+        · exact hA
+        · exact hA
+      rw [hB.1, hB.2]
+      cases hq : nodeFind s hc.node with
+      | none => rw [hq] at hsome; simp at hsome
+      | some _ =>
+        simp only
+        rw [if_pos hne, hnone]
+    cases n <;> rw [ensureCheckF, this]
+  · intro s' hok
+    have := ensSpec_ensureCheck hok
+    exact ⟨this.node_found, this.svc_found⟩
+
+/-- **Rename by node ID moves nothing stale**: a successful registration whose node ID is registered under
+    another name (the new name being free) leaves no row that references the old name — no node row, no
+    service, no check, no session in that catalog and, for the local catalog, no coordinate. -/
+theorem rename_by_id_moves_nothing_stale {s s' : XState} {idx : Nat} {r : XRegReq} {n0 : Node}
+    (h : registerX s idx r = .ok s') (hid : r.node.id ≠ "")
+    (hby : nodeFindByID (s.cat r.peer).st r.node.id = some n0) (hne : lc n0.name ≠ lc r.node.name)
+    (hfree : nodeFind (s.cat r.peer).st r.node.name = none) :
+    nodeFind (s'.cat r.peer).st n0.name = none ∧
+    (∀ v ∈ (s'.cat r.peer).st.svcs, lc v.node ≠ lc n0.name) ∧
+    (∀ c ∈ (s'.cat r.peer).st.chks, lc c.node ≠ lc n0.name) ∧
+    (∀ x ∈ (s'.cat r.peer).st.sessions, lc x.node ≠ lc n0.name) ∧
+    (r.peer = "" → ∀ co ∈ s'.coords, lc co.node ≠ lc n0.name) := by
+  obtain ⟨a, b, c⟩ := rename_by_id_clean h hid hby hne hfree
+  exact ⟨a, b.svcs, b.chks, b.sess, c⟩
+
+/-! ### 3. derived views
+
+The full-strength statements (`UsageExact`, `KindNamesExact`, `vipWellFormed` in CV.Store.CatXSpec: each derived
+table equals its recomputation from the registrations and config entries) are FALSE for the code and therefore
+for the faithful model; each is kept with a counterexample on a reachable state (the same histories are in the
+harness corpus and recorded in known_findings.txt) and with the part that does hold. -/
+
+/-- **No two services are ever assigned the same virtual IP** — in every reachable state (no hypothesis on the
+    log): the addresses of the service-virtual-ips table are pairwise distinct, there is one row per (peer,
+    service), the address on the free list is not an assigned one, and every address handed out lies between 1
+    and the counter. -/
+theorem vip_unique_reachable (log : XLog) : VipWF (replayX XState.empty log) := vipWF_replayX log
+
+/-- the same invariant is inductive: any command preserves it from any state -/
+theorem vip_unique_step {s : XState} (idx : Nat) (c : XCmd) (hs : VipWF s) : VipWF (applyX s idx c).1 :=
+  vc_applyX vipWF_closed vipWF_usage idx c hs
+
+/-- FULL-STRENGTH `vipWellFormed` fails: "a virtual IP advertised by any catalog instance equals its service's
+    current assignment" is false in a reachable state (the address is freed when no instance NAMED like the
+    service and no config entry remains, while the sidecars advertise it). -/
+theorem vip_agrees_counterexample : ∃ log, XLog.wf log ∧ ¬ VipAgrees (replayX XState.empty log) :=
+  ⟨Cex.logVip, Cex.logVip_wf, by rw [Cex.replay_logVip]; exact Cex.t4_not_agree.1⟩
+
+theorem vip_wellformed_counterexample : ∃ log, XLog.wf log ∧ ¬ vipWellFormed (replayX XState.empty log) := by
+  obtain ⟨log, hwf, h⟩ := vip_agrees_counterexample
+  exact ⟨log, hwf, fun hw => h hw.2.2⟩
+
+/-- PARTIAL: what does hold of `VipAgrees` — at the moment an instance is (re-)registered, the address written
+    into its row is the address the table assigns to its Connect name (so a disagreement can only arise later,
+    by a free). Together with `vip_unique_reachable` this is `vipWellFormed` minus "…and stays so". -/
+theorem vip_agrees_at_registration_partial {s s' : XState} {p node : String} {idx : Nat} {q : SvcReq}
+    (h : ensureServiceX s p idx node q = .ok s') :
+    ∀ e, extFind (s'.cat p) node q.id = some e → ∀ ip, e.vip = some ip →
+      ∃ a ∈ s'.vips, a.pk = vipKey p q.connectTarget ∧ a.ip = ip :=
+  ensureServiceX_vip_agrees h
+
+/-- FULL-STRENGTH `KindNamesExact` fails: a connect-enabled row outlives the last instance that served the
+    name through Connect (`ensureServiceTxn` only upserts). -/
+theorem kind_names_exact_counterexample : ∃ log, XLog.wf log ∧ ¬ KindNamesExact (replayX XState.empty log) :=
+  ⟨Cex.logKsn, Cex.logKsn_wf, by rw [Cex.replay_logKsn]; exact Cex.s2_not_exact⟩
+
+/-- FULL-STRENGTH `UsageExact` fails: one instance re-registered under a spelling that differs only in case
+    makes the service-names counter 2 in a catalog with a single service instance. -/
+theorem usage_exact_counterexample : ∃ log, XLog.wf log ∧ ¬ UsageExact (replayX XState.empty log) ∧
+    usageGet (replayX XState.empty log) "service-names" = 2 ∧ (replayX XState.empty log).loc.st.svcs.length = 1 :=
+  ⟨Cex.logUsage, Cex.logUsage_wf, by rw [Cex.replay_logUsage]; exact Cex.u2_not_exact⟩
+
+/-- PARTIAL: the part of `UsageExact` proved so far — the `nodes` counter equals its recomputation (the number
+    of node rows of the local catalog) in every reachable state. (The other counters are compared with the real
+    store line by line on every run; `service-names` and `billable-services` are NOT exact, see the
+    counterexample above and known_findings.txt; for `services` / `connect-mesh-*` / `config-entries-*` / `kvs`
+    the same argument applies once the remaining tables are shown to hold one row per key.) -/
+theorem usage_nodes_exact_partial (log : XLog) (hwf : XLog.wf log) :
+    usageGet (replayX XState.empty log) "nodes" = usageOf (replayX XState.empty log) "nodes" := by
+  have h := usage_nodes_replayX log XState.empty hwf CatOK.empty (by simp [usageGet, XState.empty, tfind])
+  rw [h]
+  simp [usageOf]
+
+/-! ### non-vacuity -/
+
+/-- a well-formed log exists that exercises registration, a sidecar, a check, a coordinate and a
+    deregistration (hypothesis of `cat_inv_reachable` is satisfiable by non-trivial histories) -/
+def sampleLog : XLog :=
+  [(1, .sysmeta "virtual-ips" (some "true")),
+   (2, .register ⟨"", ⟨"n1", "id1", "10.0.0.1", 0, 0⟩, some ⟨"web-sidecar-proxy", "web-sidecar-proxy", 80, .connectProxy, false, "web", ["db"], false, 0⟩,
+        [⟨"n1", "c1", "passing", "web-sidecar-proxy", "", "", "", "", 0, 0⟩]⟩),
+   (3, .coords [⟨"n1", "", 1⟩]),
+   (4, .register ⟨"peer1", ⟨"n1", "id1", "10.0.0.1", 0, 0⟩, some ⟨"api1", "api", 80, .typical, true, "", [], false, 0⟩, []⟩),
+   (5, .deregister "" "n1" "" "")]
+
+/-- `NF` of a literal, through the character list (kernel evaluation of `String.map` is not available) -/
+theorem NF_of_toList {s : String} (h : nulC ∉ s.toList.map Char.toLower) : NF s := by
+  unfold NF lc; rw [String.toList_map]; exact h
+
+theorem sampleLog_wf : XLog.wf sampleLog := by
+  intro ic hic
+  simp only [sampleLog, List.mem_cons, List.mem_nil_iff, or_false] at hic
+  rcases hic with rfl | rfl | rfl | rfl | rfl <;> simp only [XCmd.wf] <;> exact NF_of_toList (by decide)
 
 end CV.Props.C07
